@@ -134,7 +134,26 @@ func (e *Engine) pickRunnable() *thread {
 	if len(rs) == 1 {
 		return rs[0]
 	}
+	if e.detSched {
+		return e.roundRobin(rs)
+	}
 	return rs[e.choose(len(rs))]
+}
+
+// roundRobin picks the runnable thread that follows the current one in id order
+// (deterministic scheduling: only one interleaving of the free switch points is
+// explored; used by harnesses whose property is not schedule-quantified).
+func (e *Engine) roundRobin(rs []*thread) *thread {
+	cur := -1
+	if e.cur != nil {
+		cur = e.cur.id
+	}
+	for _, t := range rs {
+		if t.id > cur {
+			return t
+		}
+	}
+	return rs[0]
 }
 
 func (e *Engine) deadlock() {
@@ -224,6 +243,9 @@ func (e *Engine) pickRunnableAny(except *thread) *thread {
 	if len(rs) == 1 {
 		return rs[0]
 	}
+	if e.detSched {
+		return e.roundRobin(rs)
+	}
 	return rs[e.choose(len(rs))]
 }
 
@@ -279,7 +301,8 @@ func (e *Engine) canSend(ch *chanObj) bool {
 }
 
 func (e *Engine) doRecv(ch *chanObj) (value, bool) {
-	defer e.hbAcquire(ch)
+	e.hbAcquire(ch)
+	defer e.hbRelease(ch)
 	if len(ch.buf) > 0 {
 		v := ch.buf[0]
 		ch.buf = ch.buf[1:]
@@ -335,6 +358,7 @@ func (e *Engine) chanSend(ch *chanObj, v value) {
 	w := &waiter{th: e.cur, cases: []selCase{{ch, true, v}}}
 	ch.sendq = append(ch.sendq, w)
 	e.block(func() bool { return w.done || ch.closed }, "chan send")
+	e.hbAcquire(ch)
 	if !w.done && ch.closed {
 		w.done = true
 		e.rtPanicT("send on closed channel")
@@ -352,6 +376,7 @@ func (e *Engine) chanRecv(ch *chanObj) (value, bool) {
 	w := &waiter{th: e.cur, cases: []selCase{{ch, false, nil}}}
 	ch.recvq = append(ch.recvq, w)
 	e.block(func() bool { return w.done || ch.closed }, "chan receive")
+	e.hbAcquire(ch) // the sender (or closer) released on ch before completing this receive
 	if w.done {
 		return w.recvVal, w.recvOk
 	}
@@ -445,6 +470,7 @@ func (e *Engine) selectInstr(fr *frame, in *ssa.Select) value {
 		return false
 	}, "select")
 	if w.done {
+		e.hbAcquire(cases[w.chosen].ch)
 		return result(w.chosen, w.recvVal, w.recvOk)
 	}
 	w.done = true
@@ -453,6 +479,7 @@ func (e *Engine) selectInstr(fr *frame, in *ssa.Select) value {
 			if c.send {
 				e.rtPanicT("send on closed channel")
 			}
+			e.hbAcquire(c.ch)
 			return result(i, zero(c.ch.elem), false)
 		}
 	}
